@@ -21,6 +21,7 @@ type Spec struct {
 	Nontrivial   string // name of the distinctness measure reported as distinct_nontrivial
 	Variants     []string
 	Main         string
+	Also         []string // further build variants that run the same units
 	Block        int
 	QuickWall    time.Duration
 	ThoroughWall time.Duration
@@ -165,6 +166,15 @@ func check(e *Env, s *Spec) (int, error) {
 	agg, err := e.Fan(opts)
 	if err != nil {
 		return 2, err
+	}
+	for _, v := range s.Also {
+		o2 := opts
+		o2.Variant = v
+		a2, err := e.Fan(o2)
+		if err != nil {
+			return 2, err
+		}
+		agg.merge(a2, v)
 	}
 	e.logf("%s: %d/%d units, %d evaluations, %d simulated steps, %d failure reports", s.ID, agg.Units, total, agg.Evals, agg.Steps, len(agg.Fails))
 	cov := map[string]interface{}{}
